@@ -202,7 +202,46 @@ func (c *Ctx) flushUnmodified(rule string) {
 				okApp := false
 				if ac != nil {
 					if bi, isB := ac.Common().Value.(*ssa.Builtin); isB && bi.Name() == "append" {
-						if fieldLoadName(Arg(ac, 0)) == fld {
+						// the queue itself — or, where it was still nil, a fresh empty list
+						// made with some capacity
+						var sameQueue func(v ssa.Value, d int) bool
+						sameQueue = func(v ssa.Value, d int) bool {
+							if fieldLoadName(v) == fld {
+								return true
+							}
+							if phi, isPhi := v.(*ssa.Phi); isPhi && d < 3 {
+								hasField := false
+								for _, e := range phi.Edges {
+									switch {
+									case sameQueue(e, d+1):
+										hasField = true
+									case IsNilConst(e):
+									default:
+										// make([]T, 0, k): a MakeSlice of length 0, or (constant k) an
+										// empty slice of a fresh array
+										okEmpty := false
+										if ms, isMS := e.(*ssa.MakeSlice); isMS {
+											if n, isC := ConstInt(ms.Len); isC && n == 0 {
+												okEmpty = true
+											}
+										}
+										if sl, isSl := e.(*ssa.Slice); isSl && sl.High != nil {
+											if _, fresh := sl.X.(*ssa.Alloc); fresh {
+												if n, isC := ConstInt(sl.High); isC && n == 0 {
+													okEmpty = true
+												}
+											}
+										}
+										if !okEmpty {
+											return false
+										}
+									}
+								}
+								return hasField
+							}
+							return false
+						}
+						if sameQueue(Arg(ac, 0), 0) {
 							okApp = true
 						}
 					}
